@@ -20,7 +20,11 @@ import json
 from . import common
 from .common import cN, cnat, cbool, clist, copt, cstr
 
-THEOREMS = []   # filled in below (kept in one place with Props.v)
+THEOREMS = [
+    "process_realises_inline", "decode_heap_is_decode_tree", "multiref_equiv", "outlined_inlines_back",
+    "outline_invariant", "fuel_suffices", "dangling_href_local", "dangling_decodes_to_href_object",
+    "empty_array_is_empty_list", "array_items_typed", "unmarked_before_response_refuted",
+]
 
 PRE = "From SV Require Import Lib.Base C18.Model."
 
@@ -39,6 +43,7 @@ KEY_SHARED_ARRAY = "C18:shared-array-referent-untyped-items"
 KEY_ARRAY = "C18:array-not-a-typed-list"
 KEY_DANGLING = "C18:dangling-href-disturbs-reply"
 KEY_INLINE = "C18:inline-reply-not-decoded"
+KEY_REBOUND = "C18:prefix-rebound-on-independent-element"
 
 BUILTINS = {"string": 0, "int": 1, "long": 1, "boolean": 2, "double": 3}
 FUEL = 40
@@ -377,7 +382,7 @@ class Outline(object):
     """One way of writing the element tree: which occurrences are references,
     how independent elements are named, identified, marked and ordered."""
 
-    def __init__(self, rng, root, I, p_out, marking, dangling=False, force_before=False):
+    def __init__(self, rng, root, I, p_out, marking, dangling=False, decide=None):
         self.rng = rng
         self.href = {}              # id(Elem) -> ref id string
         self.defs = []              # [(ref id, Content)] in emission order
@@ -389,8 +394,8 @@ class Outline(object):
 
         def walk(e, inside_out):
             c = e.content
-            if c.kind != "nil" and rng.random() < p_out:
-                if id(c) not in by_content or rng.random() < 0.08:      # rarely: a second copy instead of sharing
+            if c.kind != "nil" and (decide(e) if decide else rng.random() < p_out):
+                if id(c) not in by_content or (decide is None and rng.random() < 0.08):   # rarely: a second copy, not shared
                     by_content[id(c)] = idf(len(order))
                     order.append((by_content[id(c)], c))
                     first = True
@@ -771,11 +776,80 @@ def fixed_root():
     return Elem("return", bob)
 
 
+def small_root():
+    """a Person with a name and one int array of two items shared by nums and nums2: 6 occurrences"""
+    leaf = lambda b, t, typed=True: Content("leaf", [("xsi", "type", ("q", "xsd", b, ""))] if typed else [], t, [],  # noqa
+                                            ("leaf", BUILTINS[b], t), b)
+    nums = Content("array", [("enc", "arrayType", ("q", "xsd", "int", "[2]"))], None,
+                   [Elem("item", leaf("int", "1", False)), Elem("item", leaf("int", "2", False))],
+                   ("arr", [("leaf", 1, "1"), ("leaf", 1, "2")]), "ArrayOfInt")
+    bob = Content("struct", [("xsi", "type", ("q", ("u", 0), "Person", ""))], None,
+                  [Elem("name", leaf("string", "bob")), Elem("nums", nums), Elem("nums2", nums)],
+                  ("struct", "Person", [("name", ("leaf", 0, "bob")), ("nums", nums.value), ("nums2", nums.value)]),
+                  "Person")
+    return Elem("return", bob)
+
+
 def payload_of(m):
     return {"wsdl": m["wsdl"].decode("utf-8"), "reply_inline": m["doc_in"].decode("utf-8"),
             "reply_outlined": m["doc_out"].decode("utf-8"), "decoded_inline": m["r_in"],
             "decoded_outlined": m["r_out"],
             "how": "client.service.f(__inject={'reply': <reply>}) for both replies; the results must be equal"}
+
+
+def occurrences(root):
+    """the distinct element occurrences that can be written as references"""
+    seen, out = set(), []
+
+    def walk(e):
+        if id(e) in seen:
+            return
+        seen.add(id(e))
+        if e.content.kind != "nil":
+            out.append(e)
+        for k in e.content.kids:
+            walk(k)
+    walk(root)
+    return out
+
+
+def probe_prefix_rebinding(ck, client, wsdl):
+    """Prefix handling is outside the infoset model.  Generated documents
+    declare every prefix once (on the Envelope, or on the independent element
+    that uses it, under a name nobody else uses).  Here: two independent
+    elements bind the SAME prefix to different namespaces, which is
+    namespace-well-formed XML; the in-line form nests the same declarations."""
+    In = Interner()
+    head = ('<e:Envelope xmlns:e="%s" xmlns:xsi="%s" xmlns:enc="%s" xmlns:a="urn:c18:fixed:a"><e:Body>' % (ENV, XSI, ENC))
+    tail = '</e:Body></e:Envelope>'
+    out = (head + '<a:fResponse><return href="#r"/></a:fResponse>'
+           '<multiRef id="r" enc:root="0" xmlns:q="urn:c18:fixed:a" xsi:type="q:Person"><name>bob</name>'
+           '<nums href="#n"/></multiRef>'
+           '<multiRef id="n" enc:root="0" xmlns:q="%s" enc:arrayType="q:int[1]"><item>5</item></multiRef>' % XSD
+           + tail).encode("utf-8")
+    inl = (head + '<a:fResponse><return xmlns:q="urn:c18:fixed:a" xsi:type="q:Person"><name>bob</name>'
+           '<nums xmlns:q="%s" enc:arrayType="q:int[1]"><item>5</item></nums></return></a:fResponse>' % XSD
+           + tail).encode("utf-8")
+    control = out.replace(b'xmlns:q="urn:c18:fixed:a" xsi:type="q:Person"', b'xmlns:q1="urn:c18:fixed:a" xsi:type="q1:Person"')
+    r_out, s_out = run_impl(client, out, In)
+    r_in, s_in = run_impl(client, inl, In)
+    r_ctl, s_ctl = run_impl(client, control, In)
+    ck.seen(("prefix-rebinding-probe", out))
+    ck.seen(("prefix-rebinding-probe-control", control))
+    ck.count("prefix-rebinding-probes", 2)
+    pl = {"wsdl": wsdl.decode("utf-8"), "reply_inline": inl.decode("utf-8"), "reply_outlined": out.decode("utf-8"),
+          "decoded_inline": s_in, "decoded_outlined": s_out,
+          "how": "client.service.f(__inject={'reply': <reply>}) for both replies; the results must be equal"}
+    if r_ctl != r_in:
+        ck.failing_input(KEY_DIFFERS, "prefixes declared on the independent elements (distinct names): the out-lined reply "
+                         "decodes to %s, the same reply in line to %s" % (s_ctl, s_in),
+                         dict(pl, reply_outlined=control.decode("utf-8"), decoded_outlined=s_ctl))
+    ck.extra["prefix_rebinding_probe"] = {"same_result": r_out == r_in, "decoded_outlined": s_out, "decoded_inline": s_in}
+    if r_out != r_in and KEY_REBOUND in ck.known:
+        # reported under its own key once the maintainer of KNOWN_FINDINGS.json lists it (see the report);
+        # until then the observation is kept in the evidence file only
+        ck.failing_input(KEY_REBOUND, "two independent elements bind one prefix to different namespaces: the moved content "
+                         "is resolved through the referrer and decodes to %s, in line to %s" % (s_out, s_in), pl)
 
 
 def run(ck):
@@ -833,6 +907,18 @@ def run(ck):
         variants(client, wsdl, I, root, "fixed", 12 if quick else 40)
         variants(client, wsdl, I, root, "fixed-unmarked", 4, markings=["unmarked-before"])
         variants(client, wsdl, I, root, "fixed-xsi-prefix", 6, markings=["marked", "unmarked-after"], force_xsi="p3")
+        probe_prefix_rebinding(ck, client, wsdl)
+        # exhaustive: every subset of the occurrences of a value written as references
+        # (quick: the 6 occurrences of a small value; thorough: all 13 of the hand-written one)
+        xroot = root if not quick else small_root()
+        occ = occurrences(xroot)
+        ck.extra["exhaustive_occurrences"] = len(occ)
+        for mask in range(1 << len(occ)):
+            chosen = set(id(e) for k, e in enumerate(occ) if mask >> k & 1)
+            marking = ["marked", "unmarked-after", "mixed"][mask % 3]
+            o = Outline(rng, xroot, I, 0.0, marking, decide=lambda e: id(e) in chosen)
+            R.add(client, wsdl, I, xroot, Style(rng, I, False), Style(rng, I, mask % 4 == 1), o, False, "exhaustive")
+        ck.exhaustive = False
     except Exception as e:  # noqa
         ck.failing_input("C18:wsdl-load", "the hand-written rpc/encoded WSDL cannot be used: %r" % (e,),
                          {"wsdl": wsdl.decode("utf-8"), "error": repr(e)})
@@ -878,7 +964,11 @@ def run(ck):
     ck.extra["theorem_instance_failures"] = len(inst_bad)
     ck.extra["cases_hitting_unmarked_before"] = sum(1 for _, m in cases if m["unmarked_before"])
 
-    for i in sorted(res["mr_spec_ok"]):
+    spec_bad = sorted(res["mr_spec_ok"])
+    # a dangling reference is blamed only when replies without one decode alike
+    general = any((i in res["mr_same"]) and not cases[i][1]["dangling"] and not cases[i][1]["unmarked_before"]
+                  for i in spec_bad)
+    for i in spec_bad:
         m = cases[i][1]
         pl = payload_of(m)
         not_same = i in res["mr_same"]
@@ -887,16 +977,16 @@ def run(ck):
             ck.failing_input(KEY_UNMARKED, "an independent element without SOAP-ENC:root='0' placed before the rpc "
                              "response element is decoded as the reply", pl)
         elif not_shown:
-            ck.failing_input(KEY_ARRAY if "[" in m["r_in"] or "arrayType" in m["doc_in"].decode("utf-8") else KEY_INLINE,
+            ck.failing_input(KEY_ARRAY if "arrayType" in m["doc_in"].decode("utf-8") else KEY_INLINE,
                              "the reply with everything in line does not decode to the value it was written from "
                              "(arrays as lists of items of the type named by arrayType, empty arrays as empty lists): %s"
                              % m["r_in"][:300], pl)
-        elif not_same and m["dangling"]:
-            ck.failing_input(KEY_DANGLING, "an href without matching id changes more than that element: %s vs %s"
-                             % (m["r_out"][:200], m["r_in"][:200]), pl)
         elif not_same and m["shared"] and m["xsi_prefix"] != "xsi" and "_type" in m["r_out"]:
             ck.failing_input(KEY_SHARED_ARRAY, "items of an array referent shared by several referrers decode as objects "
                              "with _type: %s" % m["r_out"][:300], pl)
+        elif not_same and m["dangling"] and not general:
+            ck.failing_input(KEY_DANGLING, "an href without matching id changes more than that element: %s vs %s"
+                             % (m["r_out"][:200], m["r_in"][:200]), pl)
         elif not_same:
             ck.failing_input(KEY_DIFFERS, "the out-lined reply decodes to %s, the same reply in line to %s"
                              % (m["r_out"][:300], m["r_in"][:300]), pl)
